@@ -12,6 +12,11 @@
   lc.select <tz> <world…>            tz: `-` unset | `!` not unicode | x<hex>
       -> `err` | content number        TimeZone::local(env::var("TZ").ok()) without the fallbacks
   lc.zone <tz> <world…>              -> content number: current_zone (with the fallbacks)
+  lc.off <entry> <tz> <d> <world…>   entry: ou|ol (offset_from_*_datetime) du|dl (offset_from_*_date, d =
+                                     midnight) fu|fl (from_*_datetime) now; d: the reading (seconds);
+                                     extra world tokens  A<int>:u=<text>  A<int>:l=<text>  say what the zone
+                                     with that content number answers for `d` in the UTC / local direction
+      -> `<answer text>`             the entry point of `Api` run on a fresh thread under TZ = tz
   lc.run <world…> | <step…>          steps: S- | S! | Sx<hex> | A<microseconds> | T<thread>
                                             | C<thread>:<u|l>:<n|r|f|?>
       -> one item per C step: the content number of the zone used, or `?` when the class is `?`
@@ -29,6 +34,8 @@ structure Cfg where
   sysName : Option Bytes := none
   mtime : Option Nat := none
   utc : Int := 0
+  /-- what a zone (by content number) answers for the reading of an `lc.off` line: (content, local?) ↦ text -/
+  ans : List ((Int × Bool) × String) := []
 
 def lookupL {β} (k : Bytes) : List (Bytes × β) → Option β
   | [] => none
@@ -53,6 +60,14 @@ def hexL (cs : List Char) : Option Bytes := hexDecode (String.ofList cs)
 def intL (cs : List Char) : Option Int := (String.ofList cs).toInt?
 def natL (cs : List Char) : Option Nat := (String.ofList cs).toNat?
 
+def splitColonA : List Char → List (List Char)
+  | [] => [[]]
+  | ':' :: rest => [] :: splitColonA rest
+  | ch :: rest =>
+    match splitColonA rest with
+    | h :: tl => (ch :: h) :: tl
+    | [] => [[ch]]
+
 def worldTok (c : Cfg) (tok : String) : Option Cfg :=
   match tok.toList with
   | 'F' :: rest =>
@@ -70,6 +85,12 @@ def worldTok (c : Cfg) (tok : String) : Option Cfg :=
   | 'N' :: rest => (hexL rest).map (fun n => { c with sysName := some n })
   | 'M' :: rest => (natL rest).map (fun n => { c with mtime := some n })
   | 'U' :: rest => (intL rest).map (fun n => { c with utc := n })
+  | 'A' :: rest =>
+    let (k, v) := spanEq rest
+    match splitColonA k with
+    | [n, ['u']] => (intL n).map (fun n => { c with ans := c.ans ++ [((n, false), String.ofList v)] })
+    | [n, ['l']] => (intL n).map (fun n => { c with ans := c.ans ++ [((n, true), String.ofList v)] })
+    | _ => none
   | _ => none
 
 def worldToks (c : Cfg) : List String → Option Cfg
@@ -88,6 +109,36 @@ def zoneOut (c : Cfg) : Zone → String
   | .utc => toString c.utc
   | .tzif _ n => toString n
   | .rule _ n => toString n
+
+def zoneNum (c : Cfg) : Zone → Int
+  | .utc => c.utc
+  | .tzif _ n => n
+  | .rule _ n => n
+
+def lookupA (k : Int × Bool) : List ((Int × Bool) × String) → String
+  | [] => "no-answer"
+  | (a, b) :: rest => if a = k then b else lookupA k rest
+
+/-- the zone's own lookup functions, as the world tokens give them for the reading of the line -/
+def Cfg.lookups (c : Cfg) : Lookups String :=
+  { utc := fun z _ => lookupA (zoneNum c z, false) c.ans
+    loc := fun z _ => lookupA (zoneNum c z, true) c.ans }
+
+def runEntry (c : Cfg) (entry : String) (e : EnvVal) (d : Int) : Option String :=
+  let L := c.lookups
+  let W := c.world
+  let c0 : Counted := { s := init e 0, calls := 0 }
+  let out (r : Counted × String) : String := r.2
+  let out2 (r : Counted × (Int × String)) : String := r.2.2
+  match entry with
+  | "ou" => some (out (Api.offset_from_utc_datetime L W c0 0 d))
+  | "ol" => some (out (Api.offset_from_local_datetime L W c0 0 d))
+  | "du" => some (out (Api.offset_from_utc_date L W c0 0 d))
+  | "dl" => some (out (Api.offset_from_local_date L W c0 0 d))
+  | "fu" => some (out2 (Api.from_utc_datetime L W c0 0 d))
+  | "fl" => some (out2 (Api.from_local_datetime L W c0 0 d))
+  | "now" => some (out2 (Api.now L W c0 0 d))
+  | _ => none
 
 def decName : Decision → String
   | .created => "created" | .reused => "reused" | .rechecked => "rechecked" | .reloaded => "reloaded"
@@ -158,6 +209,9 @@ def handle (op : String) (args : List String) : Option String :=
   | "lc.zone", tz :: wt => some (match envTok tz, worldToks {} wt with
       | some e, some c => zoneOut c (current_zone c.world (env_var e))
       | _, _ => bad)
+  | "lc.off", entry :: tz :: d :: wt => some (match envTok tz, int? d, worldToks {} wt with
+      | some e, some d, some c => (runEntry c entry e d).getD bad
+      | _, _, _ => bad)
   | "lc.run", toks =>
     let (wt, st) := splitBar toks
     some (match worldToks {} wt, st.mapM stepTok with
